@@ -433,6 +433,20 @@ func (*c20) Oracle(c Case, impl []string) []Failure {
 			f := strings.Split(got, " ")
 			if len(f) != 5 || (f[3] == "1") != (newErr && !nilRecv) || strings.HasPrefix(f[4], "seq-events") || f[4] == "?" {
 				fail("constructor's error or <method>: unsupported, zero result")
+			} else if f[3] == "1" {
+				// the constructor is asked about the repository the call acts on: the method's repository
+				// argument, the one written to for a mount (toRepo), none for the catalogue
+				wantRepo := "0"
+				switch method {
+				case "MountBlob":
+					wantRepo = "1"
+				case "Repositories":
+					wantRepo = `""`
+				}
+				if c.Tag != "boundary" && !strings.HasPrefix(c.Tag, "boundary") && f[2] != wantRepo {
+					fs = append(fs, Failure{Class: "funcs-error-repo:" + method, Oracle: "constructor_asked_about_the_repository_acted_on", Index: i,
+						Expected: "repository argument " + wantRepo, Observed: got})
+				}
 			}
 		}
 	}
